@@ -29,7 +29,7 @@ def cases(draw):
     # choices are drawn first and the bulky tree last)
     d = draw(st.sampled_from([2, 2, 3, 3, 4]))
     kind = draw(st.sampled_from(["swizzle", "swizzle", "swap", "flatten", "flatten", "merge", "merge",
-                                 "flatten_unflatten", "split_flatten"]))
+                                 "flatten_unflatten", "split_flatten", "flatten_swap"]))
     depth = draw(st.integers(0, d - 2))
     c = {"how": draw(st.sampled_from(["ref", "fiber", "uncompressed", "yaml", "deepcopy"])),
          "kind": kind, "depth": depth, "inverse": draw(st.booleans()),
@@ -204,6 +204,34 @@ def check(case, rec):
         rec.cls("collision", any(len(v) > 1 for v in groups.values()))
         rec.cls("merge-" + style)
         tdepth = depth
+    elif kind == "flatten_swap":
+        # swapping ranks of which one already has tuple coordinates (a flattened rank)
+        if d < 3:
+            return
+        fd = depth % (d - 1)
+        style = "pair" if case["style"] == "pair" else "tuple"
+        f = t.flattenRanks(depth=fd, levels=1, coord_style=style)
+        operand_intact("flattenRanks")
+        fcont = {q: vs[0] for q, vs in image_flatten(cont, fd, 1, style, shape).items()}
+        fids = f.getRankIds()
+        sd = case["step"] % (d - 2)
+        fsnap = observe.snap(f.getRoot())
+        r = f.swapRanks(depth=sd)
+        if observe.snap(f.getRoot()) != fsnap:
+            raise Violation("operand-modified", "swapRanks changed its (flattened) operand")
+        verify(r, "swapRanks of a flattened tensor")
+        want = {p[:sd] + (p[sd + 1], p[sd]) + p[sd + 2:]: v for p, v in fcont.items()}
+        got = observe.tensor_content(r)
+        exp_ids = fids[:sd] + [fids[sd + 1], fids[sd]] + fids[sd + 2:]
+        if got != want or r.getRankIds() != exp_ids:
+            raise Violation("swap-tuple", f"flatten(depth={fd}, {style}) then swapRanks(depth={sd}) of {cont} gives {got} / "
+                            f"{r.getRankIds()}, expected {want} / {exp_ids}")
+        if case["inverse"]:
+            back = r.swapRanks(depth=sd)
+            if observe.tensor_content(back) != fcont or back.getRankIds() != fids:
+                raise Violation("inverse-content", "swapping the ranks of a flattened tensor twice does not restore it")
+        rec.cls("tuple-rank-in-swap", fd in (sd, sd + 1))
+        tdepth = sd
     elif kind == "split_flatten":
         step = case["step"]
         s = t.splitUniform(step, depth=depth)
